@@ -99,6 +99,7 @@ type Snapshot struct {
 	ClientTables [][]int64 `json:"client_tables"` // per tunnel: ids in the RPC-client end's table (nil: unknown)
 	ServerTables [][]int64 `json:"server_tables"` // live tunnel servers, in creation order
 	Registry  int      `json:"registry"`       // len(AllReverseTunnels())
+	KeyReady  []string `json:"key_ready,omitempty"` // affinity keys k for which KeyAsChannel(k).Ready() is true
 	RegistryDone int   `json:"registry_done"`  // of those, how many are already done
 	PendingOps []string `json:"pending_ops,omitempty"`
 	NowNs     int64    `json:"now_ns"`
@@ -158,6 +159,18 @@ type RegObs struct {
 	AllDone  int    `json:"all_done,omitempty"` // all: how many of the listed channels are already done
 	Tunnel   int    `json:"tunnel,omitempty"`
 	Parked   bool   `json:"parked,omitempty"` // a registration step was parked at a yield point when the op's settle ended
+	RetOp    int      `json:"ret_op"` // wait: index of the operation during which it was seen to return (-1 never; len(ops) = in the final time advance)
+	ParkedAt []string `json:"parked_at,omitempty"`
+	T        []TunObs `json:"t,omitempty"` // facts about every tunnel at the quiescent point after the op
+	VMs      int64    `json:"vms,omitempty"` // virtual milliseconds since the run started
+}
+
+// TunObs: what the harness knows about one reverse tunnel's life cycle, independent of the registry.
+type TunObs struct {
+	Started     bool `json:"started,omitempty"`      // the OpenReverseTunnel handler was started by the carrier
+	OpenCbEnd   bool `json:"open_cb_end,omitempty"`  // the open callback has returned (both registration steps precede it)
+	CloseTrig   bool `json:"close_trig,omitempty"`   // some close of this tunnel has been started
+	HandlerDone bool `json:"handler_done,omitempty"` // the OpenReverseTunnel handler has returned
 }
 
 type YieldRec struct {
